@@ -34,6 +34,13 @@ value (result `(struct × value)`, callable inside expressions), `for k in lo..h
 `Loop.forRange` (the body is an auxiliary definition returning `Ctl`), labelled `'outer: loop` with `continue 'outer`
 from an inner `for` and `break`, a method rendered as a function parameter (`opaque_methods`: `preprocess` ↦ `pre`).
 
+Addition for fn:bitseq (target option `strfmt`, opt-in; see STRFMT_PRELUDE): parsing / printing.  String and char literals, char
+patterns, `?` and `#[display("..")]` are parsed; `FromStr::from_str` of the shape `s.chars().map(|c| match c { 'x' => Ok(Enum::V), …,
+_ => Err(..) }).collect()` (a `&str` is a `List Char`, `Result` items are `Option`, `collect::<Result<_,_>>()` feeds the `Ok` prefix to the
+translated `FromIterator::from_iter` and then reports `Res.err`), an `impl Iterator` built as `(lo..hi).map(move |_| {…})` over captured
+`let mut` state (the list of its items), the derived `Display` of an enum, and `Display::fmt` of the shape
+`for b in self.iter() { Display::fmt(&b, f)?; } Ok(())` (the `List Char` written).  Any other shape is rejected (exit 1 when required).
+
 A small translator for a restricted Rust subset.  It tokenises the file, parses items (enum, struct, impl blocks,
 trait default methods, consts, fn signatures, single-arm `macro_rules!`) and — per function — statements and expressions
 with a recursive-descent / precedence-climbing parser, and emits one Lean definition per function.  Nothing about the
@@ -118,7 +125,7 @@ def _req(ty, names, tag=None):
 #              argument instead of using the constant `loopFuel`.
 TARGETS = {
     "bitseq": dict(
-        src="/repo/yui/src/misc/bitseq.rs", out="BitSeqFn.lean", ns="Yuiv.GenBitSeq", scalar=None, macros=False,
+        src="/repo/yui/src/misc/bitseq.rs", out="BitSeqFn.lean", ns="Yuiv.GenBitSeq", scalar=None, macros=True, strfmt=True,
         fuel_param=False, imports=["Yuiv.Model.Res", "Yuiv.Model.RustArith"],
         blurb=["One Lean definition per translated Rust function (semantics of the primitive operators: Yuiv/Model/RustArith.lean;",
                "`u64`/`usize` are `Nat` below 2^64, `&mut self` methods return the new struct, panics are `Res.panic`).",
@@ -130,7 +137,8 @@ TARGETS = {
             ("Bit", "From_bool", "from"), ("BitSeq", "Index_usize", "index"), ("BitSeq", "Ord", "cmp"),
             ("BitSeq", "PartialOrd", "partial_cmp"), ("BitSeq", "AddAssign_BitSeq", "add_assign"),
             ("BitSeq", "AddAssign_Bit", "add_assign"), ("BitSeq", "From_T", "from"),
-            ("BitSeq", "FromIterator_T", "from_iter")]),
+            ("BitSeq", "FromIterator_T", "from_iter"), ("Bit", "From_u64", "from"), ("BitSeq", None, "iter"),
+            ("BitSeq", "FromStr", "from_str"), ("BitSeq", "Display", "fmt")]),
     "ratio": dict(
         src="/repo/yui/src/types/ratio.rs", out="RatioFn.lean", ns="Yuiv.GenRatio", scalar="Z", macros=True,
         fuel_param=True, imports=["Yuiv.Model.Res", "Yuiv.Model.RustRing"],
@@ -664,6 +672,8 @@ NOOP_MACROS = {"trace", "debug", "info", "warn", "log::trace", "log::debug", "lo
 
 class Parser:
     turbofish = False     # accept (and ignore) `.method::<T>(..)`
+    strfmt = False        # target option `strfmt`: string / char literals, char patterns, `?`, `#[display("..")]`
+    last_display = None
     mut_types = False     # accept `&mut T` inside types (erased; a function returning one is only usable as a place)
     features = set()      # enabled cargo features (none: every `cfg(feature = "..")` item / branch is dropped)
     const_generics = False      # target option: `const D: i32` parameters are value parameters
@@ -729,6 +739,11 @@ class Parser:
             s, e = self.skip_balanced()
             if e > s and self.t[s].val == "derive":
                 derives += [t.val for t in self.t[s + 1:e] if t.kind == "id"]
+            if Parser.strfmt and e > s and self.t[s].val == "display":
+                ds = [t.val for t in self.t[s + 1:e]]
+                if not (len(ds) == 3 and ds[0] == "(" and ds[2] == ")" and self.t[s + 2].kind == "str"):
+                    raise Unsupported(f"`#[display(..)]` attribute that is not one string literal (line {self.t[s].line})")
+                self.last_display = ds[1]
             vals = [t.val for t in self.t[s:e]]
             if len(vals) == 6 and vals[:4] == ["cfg", "(", "feature", "="] and vals[5] == ")" and \
                     self.t[s + 4].kind == "str" and self.t[s + 4].val.strip('"') not in Parser.features:
@@ -1076,6 +1091,10 @@ class Parser:
                 e = N("index", e=e, ix=ix, line=t.line)
                 continue
             if self.at("?"):
+                if Parser.strfmt:
+                    self.next()
+                    e = N("try", e=e, line=t.line)
+                    continue
                 raise Unsupported(f"`?` operator (line {t.line})")
             return e
 
@@ -1097,6 +1116,9 @@ class Parser:
             if t.suffix and t.suffix not in ("u64", "usize"):
                 raise Unsupported(f"integer literal of type {t.suffix} (line {t.line})")
             return N("int", v=t.val, suffix=t.suffix, line=t.line)
+        if Parser.strfmt and t.kind in ("str", "char"):
+            self.next()
+            return N(t.kind, v=t.val, line=t.line)
         if t.kind in ("str", "char", "float"):
             raise Unsupported(f"string/char/float literal (line {t.line})")
         if t.kind == "life" and self.at(":", 1) and self.at("loop", 2):
@@ -1321,6 +1343,8 @@ class Parser:
             self.next(); return N("pbool", v=(t.val == "true"))
         if self.at("_"):
             self.next(); return N("pwild")
+        if Parser.strfmt and t.kind == "char":
+            self.next(); return N("pchar", v=t.val)
         if self.at("&"):
             self.next(); return self.pattern()
         if self.at("("):
@@ -1541,8 +1565,11 @@ def parse_items(toks, mod=None, macros=False, depth=0, modname=None):
             p.expect("{")
             variants = []
             while not p.at("}"):
+                p.last_display = None
                 p.skip_attrs()
                 v = p.ident()
+                if p.last_display is not None:
+                    mod.__dict__.setdefault("enum_display", {}).setdefault(name, {})[v] = p.last_display
                 if p.at("(") or p.at("{"): raise Unsupported(f"enum {name}: variant {v} carries data")
                 d = None
                 if p.eat("="):
@@ -1785,6 +1812,38 @@ LEAN_RESERVED = {
     "decide", "compare", "some", "none", "true", "false", "xor", "not", "fuel", "slf", "xs", "List", "Res", "U64", "Nat", "Bool",
     "Unit", "Ordering", "Option", "loopFuel", "Yuiv", "Rust", "ok", "panic", "err", "assert", "bind", "pure",
 }
+
+
+
+# ------------------------------------------------------------------------------------------------ strfmt (target option)
+# Parsing / printing support, opt-in per target (`strfmt=True`): `FromStr::from_str` of the shape
+# `s.chars().map(|c| match c { 'x' => Ok(V), …, _ => Err(..) }).collect()`, `Display::fmt` of the shape
+# `for b in <iter> { Display::fmt(&b, f)?; } Ok(())`, derived `Display` of an enum (`#[display("..")]`), and an
+# `impl Iterator` built as `(lo..hi).map(move |_| { … })` over captured `let mut` state (rendered as the list of its items).
+STRFMT_PRELUDE = """/-- `Iterator::collect::<Result<V, E>>()` (std: `impl FromIterator<Result<A, E>> for Result<V, E>`): the payloads of the items
+up to the first `Err` are handed to `V::from_iter`, which runs to its end (a panic there wins); afterwards the `Err` is
+reported.  An item `Result<A, E>` is an `Option A` (the payload of `Err` is erased, as in `Res.err`).  Returns the `Ok`
+prefix and whether no `Err` was met. -/
+def Iter.okPrefix {A : Type} : List (Option A) → List A × Bool
+  | [] => ([], true)
+  | none :: _ => ([], false)
+  | some a :: xs => (a :: (Iter.okPrefix xs).1, (Iter.okPrefix xs).2)"""
+
+
+def char_lit(tokval, line):
+    """a Rust char literal token as a Lean char literal (plain printable ASCII only)"""
+    if len(tokval) == 3 and tokval[0] == "'" and tokval[2] == "'" and 32 <= ord(tokval[1]) < 127 and tokval[1] not in "\\'":
+        return tokval
+    raise Unsupported(f"char literal {tokval} (line {line})")
+
+
+def str_lit_chars(tokval, what):
+    """a plain Rust string literal token WITHOUT format placeholders as a Lean `List Char` term"""
+    if not (len(tokval) >= 2 and tokval[0] == '"' and tokval[-1] == '"'): raise Unsupported(f"{what}: string literal {tokval}")
+    body = tokval[1:-1]
+    for ch in body:
+        if not (32 <= ord(ch) < 127) or ch in "\\{}\"": raise Unsupported(f"{what}: string literal {tokval} (escape / placeholder)")
+    return "[" + ", ".join("'\\''" if ch == "'" else f"'{ch}'" for ch in body) + "]"
 
 
 class IfTerm:
@@ -2164,7 +2223,10 @@ class Translator:
         raise Unsupported(f"`{what}` mixes {a} and {b} (line {line})")
 
     # -- function level
+    enum_display = None
+
     def translate(self, f):
+        if self.enum_display is None: self.enum_display = set()
         if f.key in self.done:
             r = self.done[f.key]
             if isinstance(r, Unsupported): raise r
@@ -2186,6 +2248,9 @@ class Translator:
         return r
 
     def translate_fn(self, f):
+        if self.cfg.get("strfmt"):
+            r = self.translate_strfmt(f)
+            if r is not None: return r
         if f.generic and not (f.generic_is_mut and (self.cfg.get("mut_params") or not f.mutparams) and
                               (self.cfg.get("soft_params") or not f.mutbinds)): raise Unsupported(f.generic)
         if f.ty not in self.types and not getattr(f, "is_trait_default", False) and f.ty not in self.newtypes and \
@@ -2251,6 +2316,193 @@ class Translator:
         return dict(text="\n".join(self.aux + ["\n".join(lines)]), pure=pure, ret=ret, fn=f, fuel=self.uses_fuel,
                     opaque=list(self.uses_opaque), mutval=(f.selfk == "mut" and ret != "()"),
                     mutparams=list(f.mutparams))
+
+    # -- strfmt: parsing / printing functions (see the comment at STRFMT_PRELUDE)
+    def translate_strfmt(self, f):
+        if f.tag == "FromStr" and f.name == "from_str": return self.strfmt_from_str(f)
+        if f.tag == "Display" and f.name == "fmt": return self.strfmt_display(f)
+        if f.ret and f.ret.replace(" ", "").startswith("implIterator<Item=") and f.selfk == "ref" and not f.params:
+            return self.strfmt_iter(f)
+        return None
+
+    def strfmt_result(self, f, text, ret):
+        return dict(text=text, pure=False, ret=ret, fn=f, fuel=False, opaque=[], mutval=False, mutparams=[])
+
+    def strfmt_reset(self, f):
+        self.cur, self.ntmp, self.nloop, self.aux = f, 0, 0, []
+        self.uses_fuel, self.ord_glob, self.loop_ctx = False, False, None
+        self.uses_opaque, self.for_ctx = [], None
+        self.setup_generics(f)
+
+    def strfmt_from_str(self, f):
+        bad = lambda what: Unsupported(f"`from_str` outside the subset: {what}")
+        if f.selfk or len(f.params) != 1 or f.params[0][1] != "str" or f.ret.replace(" ", "") != "Result<Self,Self::Err>":
+            raise bad("signature is not `(s: &str) -> Result<Self, Self::Err>`")
+        sname = f.params[0][0]
+        body = Parser(list(f.toks), f.body[0], f.body[1]).block()
+        e = body.tail
+        if body.stmts or e is None or e.kind != "mcall" or e.name != "collect" or e.args: raise bad("body is not `… .collect()`")
+        m = e.recv
+        if m.kind != "mcall" or m.name != "map" or len(m.args) != 1 or m.args[0].kind != "closure" or \
+                len(m.args[0].params) != 1 or not isinstance(m.args[0].params[0], str):
+            raise bad("`collect` is not applied to `.map(|c| …)`")
+        ch = m.recv
+        if not (ch.kind == "mcall" and ch.name == "chars" and not ch.args and ch.recv.kind == "path" and ch.recv.segs == [sname]):
+            raise bad(f"the mapped iterator is not `{sname}.chars()`")
+        c = m.args[0]
+        cv = c.params[0]
+        cb = c.body
+        while cb.kind in ("block", "paren") and (cb.kind == "paren" or not cb.stmts):
+            cb = cb.e if cb.kind == "paren" else cb.tail
+            if cb is None: raise bad("empty closure")
+        if cb.kind != "match" or cb.s.kind != "path" or cb.s.segs != [cv]: raise bad(f"the closure is not `match {cv} {{ … }}`")
+        arms, item_ty, closed = [], None, False
+        for pats, abody in cb.arms:
+            if closed: raise bad("match arm after the wildcard arm")
+            if abody.kind != "call" or abody.path not in (["Ok"], ["Err"]) or len(abody.args) != 1:
+                raise bad(f"match arm that is not `Ok(..)` / `Err(..)` (line {abody.line})")
+            if abody.path == ["Ok"]:
+                a = abody.args[0]
+                if a.kind != "path" or len(a.segs) != 2 or a.segs[0] not in self.mod.enums or \
+                        a.segs[1] not in [v for v, _ in self.mod.enums[a.segs[0]]]:
+                    raise bad(f"`Ok` of something else than an enum variant (line {abody.line})")
+                if item_ty not in (None, a.segs[0]): raise bad("`Ok` arms of different types")
+                item_ty = a.segs[0]
+                val = f"some {a.segs[0]}.{a.segs[1]}"
+            else:
+                val = "none"
+            for p_ in pats:
+                if p_.kind == "pchar": arms.append((f"decide ({self.ident(cv)} = {char_lit(p_.v, cb.line)})", val))
+                elif p_.kind == "pwild":
+                    arms.append((None, val)); closed = True
+                else: raise bad(f"pattern of kind {p_.kind} in the match on a char")
+        if not closed: raise bad("match on a char without a wildcard arm")
+        if item_ty is None: raise bad("no `Ok` arm")
+        cands = [g for g in self.mod.fns if g.ty == f.ty and g.name == "from_iter" and (g.tag or "").startswith("FromIterator")]
+        if len(cands) != 1: raise bad(f"no unique `impl FromIterator for {f.ty}`")
+        info = self.translate_callee(cands[0])
+        head = [l for l in info["text"].split("\n") if l.startswith(f"def {self.lean_fn(cands[0])} ")]
+        mh = head and re.match(r"def \S+ \{T : Type\} \((\w+)_from_T : T → (\w+)\) \((\w+) : List T\) : (Res )?(\w+) :=$", head[0])
+        if not mh or mh.group(2) != item_ty or mh.group(5) != self.lean_ty(f.ty):
+            raise bad(f"`{cands[0].rust_name}` is not of the form `from_iter<I: IntoIterator<Item = T>>(iter: I) where {item_ty}: From<T>`")
+        self.strfmt_reset(f)
+        cname = f"{self.lean_fn(f)}_closure1"
+        lines = [f"/-- closure #1 of `{f.rust_name}` (`Result<{item_ty}, _>` is `Option {item_ty}`: the payload of `Err` is erased) -/",
+                 f"def {cname} ({self.ident(cv)} : Char) : Option {item_ty} :="]
+        ind = "  "
+        for cond, val in arms:
+            if cond is None:
+                lines.append(f"{ind}{val}")
+            else:
+                lines.append(f"{ind}if {cond} then {val} else")
+        call = f"{self.lean_fn(cands[0])} (fun (b : {item_ty}) => b) (Iter.okPrefix items).1"
+        lines += ["", f"/-- `{f.rust_name}` (a `&str` is the list of its chars; `Err(_)` is `Res.err`; `{item_ty}: From<{item_ty}>` is the identity) -/",
+                  f"def {self.lean_fn(f)} ({self.ident(sname)} : List Char) : Res {self.lean_ty(f.ty)} :=",
+                  "  do",
+                  f"    let items := {self.ident(sname)}.map {cname}",
+                  f"    let r ← {call}" if mh.group(4) else f"    let r := {call}",
+                  "    (if (Iter.okPrefix items).2 then Res.ok r else Res.err)"]
+        return self.strfmt_result(f, "\n".join(lines), "?Result")
+
+    def strfmt_iter(self, f):
+        bad = lambda what: Unsupported(f"`impl Iterator` outside the subset: {what}")
+        item = f.ret.replace(" ", "")[len("implIterator<Item="):-1]
+        body = Parser(list(f.toks), f.body[0], f.body[1]).block()
+        self.strfmt_reset(f)
+        sty = self.norm_ty("Self", f)
+        env = {"self": ("slf", sty, False)}
+        items, state = [], []
+        for st in body.stmts:
+            if st.kind != "let" or not st.mut or st.pat is not None or st.els is not None or st.name is None:
+                raise bad(f"statement that is not `let mut x = e;` (line {st.line})")
+            items += self.tr_stmt(st, env)
+            state.append(st.name)
+        e = body.tail
+        if e is None or e.kind != "mcall" or e.name != "map" or len(e.args) != 1 or e.args[0].kind != "closure":
+            raise bad("the value is not `(lo..hi).map(closure)`")
+        r = e.recv
+        while r.kind == "paren": r = r.e
+        if r.kind != "range" or r.lo is None or r.hi is None or getattr(r, "incl", False): raise bad("the mapped iterator is not a range `lo..hi`")
+        c = e.args[0]
+        if len(c.params) != 1 or not isinstance(c.params[0], str): raise bad("closure parameters")
+        ilo, tlo, tylo = self.tr(r.lo, env)
+        ihi, thi, tyhi = self.tr(r.hi, env)
+        if ilo or ihi: raise bad("range bounds with effects")
+        ity = self.join_int(tylo, tyhi, "range bounds", e.line)
+        base = self.lean_fn(f)
+        # the closure: the captured `let mut` variables are its state (threaded), `self` is not captured
+        env2 = {n: (env[n][0], env[n][1], True) for n in state}
+        kv = "k_"
+        if c.params[0] != "_":
+            env2[c.params[0]] = (self.ident(c.params[0]), ity if ity != "int" else "usize", False); kv = self.ident(c.params[0])
+        for n_ in self.idents(c.body):
+            if n_ == "self": raise bad("the closure captures `self`")
+        cbody = c.body if c.body.kind == "block" else N("block", stmts=[], tail=c.body)
+        code = self.tr_block(cbody, env2, ("mutvalp", item, list(state)))
+        stsig = " ".join(f"({env[n][0]} : {unpar(self.lean_ty(env[n][1]))})" for n in state)
+        sttup = ", ".join(env[n][0] for n in state)
+        stargs = " ".join(env[n][0] for n in state)
+        stty = " × ".join([unpar(self.lean_ty(env[n][1])) for n in state] + [self.lean_ty(item)])
+        lines = list(self.aux)
+        lines += [f"/-- closure #1 of `{f.rust_name}`: new values of the captured state ({', '.join(state)}) and the item -/",
+                  f"def {base}_closure1 {stsig} ({kv} : Nat) : Res ({stty}) :="] + self.body_lines(code, "  ", True)
+        lines += ["", f"/-- the items of `(lo..hi).map(closure #1)` of `{f.rust_name}`, in order (`n` = number of indices left, `k` = next index) -/",
+                  f"def {base}_items (n : Nat) (k : Nat) {stsig} : Res (List {self.lean_ty(item)}) :=",
+                  "  match n with",
+                  "  | 0 => Res.ok []",
+                  "  | n + 1 =>",
+                  "    do",
+                  f"      let ({sttup}, x) ← {base}_closure1 {stargs} k",
+                  f"      let xs ← {base}_items n (k + 1) {stargs}",
+                  "      Res.ok (x :: xs)"]
+        main = mk_code(items, f"({base}_items ({unpar(thi)} - {unpar(tlo)}) {tlo} {stargs})")
+        lines += ["", f"/-- `{f.rust_name}`: the list of the items of the returned iterator (every consumer in this file runs it to its end) -/",
+                  f"def {base} (slf : {self.lean_ty(sty)}) : Res (List {self.lean_ty(item)}) :="]
+        ml = self.body_lines(Code(items, ("m", f"{base}_items ({unpar(thi)} - {unpar(tlo)}) {unpar(tlo)} {stargs}")), "  ", True)
+        lines += ml
+        return self.strfmt_result(f, "\n".join(lines), "?Iter<" + item + ">")
+
+    def strfmt_display(self, f):
+        bad = lambda what: Unsupported(f"`Display::fmt` outside the subset: {what}")
+        if f.selfk != "ref" or len(f.params) != 1 or "Formatter" not in f.params[0][1] or f.ret.replace(" ", "") != "fmt::Result":
+            raise bad("signature is not `(&self, f: &mut fmt::Formatter) -> fmt::Result`")
+        fm = f.params[0][0]
+        body = Parser(list(f.toks), f.body[0], f.body[1]).block()
+        t = body.tail
+        if not (t is not None and t.kind == "call" and t.path == ["Ok"] and len(t.args) == 1 and
+                t.args[0].kind in ("tuple", "unit") and not getattr(t.args[0], "es", getattr(t.args[0], "elems", []))):
+            raise bad("the value is not `Ok(())`")
+        if len(body.stmts) != 1: raise bad("body is not one `for` loop followed by `Ok(())`")
+        lp = body.stmts[0]
+        lp = lp.e if lp.kind == "expr" else lp
+        if lp.kind != "for" or lp.var == "_": raise bad("body is not one `for` loop followed by `Ok(())`")
+        it = lp.it
+        if not (it.kind == "mcall" and not it.args and it.recv.kind == "path" and it.recv.segs == ["self"]):
+            raise bad("the loop does not run over `self.<iter>()`")
+        cands = [g for g in self.mod.fns if g.ty == f.ty and g.tag is None and g.name == it.name]
+        if len(cands) != 1: raise bad(f"method {it.name} not found")
+        info = self.translate_callee(cands[0])
+        mi = re.fullmatch(r"\?Iter<(\w+)>", info["ret"])
+        if not mi: raise bad(f"`{it.name}` does not return an `impl Iterator`")
+        item = mi.group(1)
+        if item not in self.enum_display: raise bad(f"the item type {item} has no derived `Display`")
+        lb = lp.body
+        st = lb.stmts[0] if len(lb.stmts) == 1 and lb.tail is None else None
+        st = st.e if st is not None and st.kind == "expr" else st
+        ok = st is not None and st.kind == "try" and st.e.kind == "call" and st.e.path == ["Display", "fmt"] and len(st.e.args) == 2
+        if ok:
+            a0, a1 = st.e.args
+            while (a0.kind == "un" and a0.op == "&") or a0.kind == "paren": a0 = a0.e
+            ok = a0.kind == "path" and a0.segs == [lp.var] and a1.kind == "path" and a1.segs == [fm]
+        if not ok: raise bad(f"the loop body is not `Display::fmt(&{lp.var}, {fm})?;`")
+        self.strfmt_reset(f)
+        sty = self.norm_ty("Self", f)
+        lines = [f"/-- `{f.rust_name}`: the text written to the formatter (a `String` as the list of its chars; writing to it does not fail) -/",
+                 f"def {self.lean_fn(f)} (slf : {self.lean_ty(sty)}) : Res (List Char) :=",
+                 "  do",
+                 f"    let xs ← {self.lean_fn(cands[0])} slf",
+                 f"    Res.ok (xs.foldl (fun {fm} {self.ident(lp.var)} => {fm} ++ {item}.Display.fmt {self.ident(lp.var)}) [])"]
+        return self.strfmt_result(f, "\n".join(lines), "?String")
 
     def register_locals(self, f, body):
         """nested fn items and `use` declarations of a function body"""
@@ -5449,6 +5701,7 @@ def generate(src_text, src_label, target="bitseq"):
     toks, allids, mod = None, set(), None
     Parser.const_generics = bool(cfg.get("const_generics"))
     Parser.turbofish = bool(cfg.get("csc") or cfg.get("sp13") or cfg.get("abs"))
+    Parser.strfmt = bool(cfg.get("strfmt"))
     Parser.mut_types = bool(cfg.get("abs"))
     srcs = cfg["src"] if isinstance(cfg["src"], list) else [cfg["src"]]
     for k_, text in enumerate(texts):
@@ -5464,6 +5717,7 @@ def generate(src_text, src_label, target="bitseq"):
             extern_enums.add(en)
     tr = Translator(mod, toks, allids, cfg)
     tr.cur = Fn()
+    tr.enum_display = set()
     parts = []
     # enums
     for name in sorted(mod.enums):
@@ -5476,6 +5730,16 @@ def generate(src_text, src_label, target="bitseq"):
             disc.append((v, d)); nxt = d + 1
         lines += ["", f"/-- discriminants of `enum {name}` -/", f"def {name}.discr : {name} → Nat"] + [f"  | .{v} => {d}" for v, d in disc]
         parts.append("\n".join(lines))
+        if cfg.get("strfmt") and "Display" in mod.derives.get(name, []):
+            dm = getattr(mod, "enum_display", {}).get(name, {})
+            miss = [v for v, _ in vs if v not in dm]
+            if miss: raise Unsupported(f"enum {name}: derived `Display` without `#[display(\"..\")]` on variant {miss[0]}")
+            parts.append("\n".join([f"/-- derived `Display` of `enum {name}` (the `#[display(\"..\")]` attributes): the text written -/",
+                                    f"def {name}.Display.fmt : {name} → List Char"] +
+                                   [f"  | .{v} => {str_lit_chars(dm[v], f'enum {name}')}" for v, _ in vs]))
+            tr.enum_display.add(name)
+    if cfg.get("strfmt"):
+        parts.append(STRFMT_PRELUDE)
     def struct_order(names):
         out, seen = [], set()
 
